@@ -64,9 +64,17 @@ pub fn naming(p: &Program, rng: &mut Rng, adversarial: bool) -> Naming {
     let mut used: HashSet<String> = HashSet::new();
     let mut out = Vec::new();
     let mut adv = Vec::new();
+    // few adversarial names per program: most reserved spellings are rejected by RSSL itself in most positions, and one
+    // rejected identifier loses the whole program
+    let mut chosen: HashSet<usize> = HashSet::new();
+    if adversarial && !p.idents.is_empty() {
+        for _ in 0..1 + rng.below(3) {
+            chosen.insert(rng.below(p.idents.len()));
+        }
+    }
     for (i, id) in p.idents.iter().enumerate() {
         let mut name = fresh_name(rng, i);
-        if adversarial && rng.chance(1, 3) {
+        if chosen.contains(&i) {
             let candidate = match rng.below(6) {
                 0 | 1 => rng.pick(&hlsl).clone(),
                 2 | 3 => rng.pick(&msl).clone(),
@@ -260,8 +268,15 @@ pub fn examine(case: &Case, origin: &str, seed: u64, report: &mut Report) -> boo
             report.count_n("declarations-examined", declared.len() as u64);
             for d in &declared {
                 if reserved.contains(&d.name) {
+                    // scope class: names at global / namespace scope are what the name generator protects; members, methods,
+                    // parameters and locals go through other paths
+                    let kind_class = d.kind;
+                    // the name generator has no notion of struct members, methods, enumerators and namespaces-as-reserved: for
+                    // those kinds the defect is the missing mechanism, whatever the name
+                    let unprotected = matches!(d.kind, "member" | "method" | "enum-value" | "namespace");
+                    report.count(&format!("reserved-hit:{}", d.name));
                     report.violation(
-                        &format!("reserved-name-declared:{}:{}", if t == Tgt::Msl { "msl" } else { "hlsl" }, d.name),
+                        &format!("reserved-name-declared:{}:{}:{}", if t == Tgt::Msl { "msl" } else { "hlsl" }, kind_class, if unprotected { "any-reserved-name" } else { names::name_class(&d.name, t == Tgt::Msl) }),
                         &format!("the emitted {} declares a {} named `{}`, which is reserved / built in in the target language", t.name(), d.kind, d.name),
                         witness(Json::obj().set("declaration", d.name.as_str()).set("kind", d.kind).set("scope", d.scope.as_str()).set("naming", which)),
                     );
@@ -292,7 +307,10 @@ pub fn examine(case: &Case, origin: &str, seed: u64, report: &mut Report) -> boo
                 if !declared_set.contains(name.as_str()) {
                     // static const globals may be folded away, parameters of removed functions etc.: only report when some
                     // declaration carries a suffixed form of the name, i.e. the entity exists but was renamed
-                    let renamed = declared.iter().find(|d| d.name.starts_with(&format!("{}_", name)) && d.name[name.len() + 1..].chars().all(|c| c.is_ascii_digit()));
+                    // (a declaration spelled <name>_N that is itself another identifier's chosen name does not count)
+                    let renamed = declared
+                        .iter()
+                        .find(|d| d.name.starts_with(&format!("{}_", name)) && d.name[name.len() + 1..].chars().all(|c| c.is_ascii_digit()) && !names_now.iter().any(|n| **n == d.name));
                     if let Some(r) = renamed {
                         report.violation(
                             "unique-name-not-kept",
@@ -315,6 +333,17 @@ pub fn examine(case: &Case, origin: &str, seed: u64, report: &mut Report) -> boo
     crate::checks::c02::examine_program(&text1, origin, seed, &mut sub);
     report.count_n("execution-samples-on-renamed-program", sub.evaluations);
     for v in sub.violations {
+        // a user function spelled <other name>_N cannot be told apart by name from the suffixed instances the exporters
+        // generate for overloads / templates of <other name>: the execution monitors match by name, so skip those
+        if let Some(f) = v.witness.get_str("function") {
+            if let Some(pos) = f.rfind('_') {
+                let (base, suffix) = (&f[..pos], &f[pos + 1..]);
+                if !suffix.is_empty() && suffix.chars().all(|c| c.is_ascii_digit()) && case.s1.names.iter().any(|n| n == base) {
+                    report.count("execution:ambiguous-suffixed-name-skipped");
+                    continue;
+                }
+            }
+        }
         report.violation(&format!("renamed-program:{}", v.signature), &format!("after renaming ({}): {}", case.mode, v.summary), v.witness.set("naming", case.mode).set("program_s0", text0.as_str()));
     }
     for (k, n) in sub.counters {
@@ -337,7 +366,7 @@ fn first_diff(a: &str, b: &str) -> (String, String) {
 }
 
 fn run(ctx: &Ctx) -> Report {
-    let n = ctx.tier.pick(1_200, 40_000);
+    let n = ctx.tier.pick(4_000, 120_000);
     let seed = ctx.seed;
     let mut report = crate::par::run_cases(ctx, n, |index, report| {
         let case = make_case(seed, index);
